@@ -39,6 +39,11 @@ type truthObj struct {
 	Kind               string // model kind: int real name kw str hex ref arr dict stream
 	Raw                *shared.RawObject
 	Doc                *shared.DocObject // nil for objects the Writer made itself
+	// Amb: a stream whose raw body contains a line starting with "endstream";
+	// it is unambiguous only where its /Length can be known: from LenEnd on
+	// (End for a direct /Length, the end of the object holding an indirect one)
+	Amb    bool
+	LenEnd int64
 }
 
 type truth struct {
@@ -96,6 +101,18 @@ func buildTruth(doc *shared.Doc, data []byte, damaged bool) (*truth, error) {
 				}
 			}
 			to.Doc = d
+		}
+		to.LenEnd = to.End
+		if rs, ok := ro.Value.(*obj.Stream); ok {
+			to.Amb = bytes.Contains(rs.Raw, []byte("\nendstream")) || bytes.Contains(rs.Raw, []byte("\rendstream"))
+			if ref, indirect := rs.Dict["Length"].(obj.Ref); indirect {
+				to.LenEnd = 1 << 40 // beyond every file unless the object is found below
+				for j := range lay.Objects {
+					if lay.Objects[j].Num == int(ref.Num) && lay.Objects[j].Gen == int(ref.Gen) {
+						to.LenEnd = max(to.End, lay.Objects[j].End)
+					}
+				}
+			}
 		}
 		t.objs = append(t.objs, to)
 	}
@@ -282,8 +299,8 @@ func observe(t *truth, data []byte) (ob observation) {
 	stage = "Reader.Get"
 	for i := range t.objs {
 		o := &t.objs[i]
-		if o.End > size {
-			continue
+		if o.End > size || (o.Amb && o.LenEnd > size) {
+			continue // not there, or a body with an "endstream" line whose /Length cannot be known
 		}
 		v, err := r.Get(pdf.NewReference(uint32(o.Num), uint16(o.Gen)), true)
 		if err != nil {
@@ -307,6 +324,8 @@ type objRec struct {
 	Start  int64 `json:"start"`
 	HdrEnd int64 `json:"hdrEnd"`
 	End    int64 `json:"end"`
+	Amb    bool  `json:"amb"`
+	LenEnd int64 `json:"lenEnd"`
 }
 
 type event struct {
@@ -334,7 +353,7 @@ type docRec struct {
 func objRecs(t *truth) []objRec {
 	out := make([]objRec, len(t.objs))
 	for i, o := range t.objs {
-		out[i] = objRec{o.Num, o.Start, o.HdrEnd, o.End}
+		out[i] = objRec{o.Num, o.Start, o.HdrEnd, o.End, o.Amb, min(o.LenEnd, 1<<30)}
 	}
 	return out
 }
@@ -380,7 +399,10 @@ func docSpecs(ctx *core.Ctx) []docSpec {
 	// bodies with lines that start with a trailer keyword are in every document
 	plainNS := []shared.BodyKind{shared.BodyPlain, shared.BodyBinary, shared.BodyEOL, shared.BodyEndstream, shared.BodyEndobj, shared.BodyMidHeader, shared.BodyEmpty,
 		shared.BodyTrailerLine, shared.BodyXrefLine, shared.BodyStartxrefLine, shared.BodyEOFLine}
-	plain := append([]shared.BodyKind{shared.BodyCR}, plainNS...)
+	// with a direct /Length (seekable sink) also bodies ending in a bare CR and bodies with a line "endstream"
+	plain := append([]shared.BodyKind{shared.BodyCR, shared.BodyEOLEndstream}, plainNS...)
+	// streams over 1 kB on a non-seekable sink: indirect /Length objects; every third body has a line "endstream", every third a line "endobj"
+	bigAmb := []shared.BodyKind{shared.BodyBig, shared.BodyBigEOLEndstream, shared.BodyBigEOLEndobj}
 	specs := []docSpec{
 		{s + 1, shared.DocOptions{Version: pdf.V1_4, Seekable: true, Objects: 13, Bodies: plain}, "table-1.4"},
 		{s + 2, shared.DocOptions{Version: pdf.V1_7, Seekable: true, Objects: 13, Bodies: plain, Info: true}, "table-1.7-pretty"},
@@ -394,7 +416,12 @@ func docSpecs(ctx *core.Ctx) []docSpec {
 	specs = append(specs,
 		docSpec{s + 7, shared.DocOptions{Version: pdf.V1_4, Seekable: true, Objects: 12, MinStreams: 1, MaxBody: 60, Bodies: shared.MarkerBodies}, "table-1.4-marker-lines"},
 		docSpec{s + 8, shared.DocOptions{Version: pdf.V1_7, XRefStream: true, Seekable: false, Objects: 12, MinStreams: 1, MaxBody: 60, Bodies: shared.MarkerBodies, Info: true}, "xrefstream-1.7-marker-lines"})
+	specs = append(specs,
+		docSpec{s + 9, shared.DocOptions{Version: pdf.V1_4, Seekable: false, Objects: 17, MinStreams: 14, CycleBodies: true, Bodies: bigAmb}, "table-1.4-noseek-14-indirect-lengths"})
 	if ctx.Thorough() {
+		specs = append(specs,
+			docSpec{s + 43, shared.DocOptions{Version: pdf.V1_7, XRefStream: true, Seekable: false, Objects: 34, MinStreams: 30, CycleBodies: true, Bodies: bigAmb, Info: true}, "xrefstream-1.7-noseek-30-indirect-lengths"},
+			docSpec{s + 44, shared.DocOptions{Version: pdf.V1_6, Seekable: false, Objects: 24, MinStreams: 20, CycleBodies: true, Bodies: bigAmb, Filters: []string{"ASCIIHex"}}, "table-1.6-noseek-20-indirect-lengths"})
 		for k := int64(0); k < 6; k++ {
 			specs = append(specs,
 				docSpec{s + 10 + k, shared.DocOptions{Version: pdf.V1_6, Seekable: k%2 == 0, Objects: 16, Bodies: plainNS, Filters: shared.AllFilters, Info: k%3 == 0}, "table-1.6"},
@@ -484,7 +511,7 @@ func run(ctx *core.Ctx) error {
 		"distinct = distinct (cut class x object kind) pairs, the cut class being the token class/context and at/in position of the crash point inside the object it splits"
 	ctx.Ev.Assume("TLC evaluates SeqScan.tla faithfully; the Ref operators state property C20")
 	ctx.Ev.Assume("ground truth: offsets from the sink while writing and an independent byte search for `N G obj`/`endobj`; values recorded while writing; for objects the Writer makes itself (catalog, info, xref stream) the independent tokenizer of shared/docgen_scan.go")
-	ctx.Ev.Assume("documents: no object streams; stream bodies and strings free of line-initial object headers (lines starting with trailer / xref / startxref / %%EOF do occur in stream bodies); stream bodies free of EOL+\"endstream\" (a prefix ending inside such a body is a well-formed shorter object for a reader that tolerates a wrong /Length); where /Length can be indirect (non-seekable sink) no body ends in a bare CR (once the length object is cut off, CR + the Writer's LF cannot be told from a CR LF marker); unencrypted")
+	ctx.Ev.Assume("documents: no object streams; stream bodies and strings free of line-initial object headers (lines starting with trailer / xref / startxref / %%EOF do occur in stream bodies); a stream whose body has a line starting with \"endstream\" is judged only where its /Length can be known (direct: from the end of the object on; indirect: from the end of the length object on) - for a shorter prefix what is there is a well-formed shorter object; where /Length can be indirect (non-seekable sink) no body ends in a bare CR (once the length object is cut off, CR + the Writer's LF cannot be told from a CR LF marker); unencrypted")
 
 	cfg := "MC_SeqScan_q.cfg"
 	if ctx.Thorough() {
@@ -496,7 +523,11 @@ func run(ctx *core.Ctx) error {
 	go func() {
 		defer mcWG.Done()
 		_, mcErr = ctx.MustHold(core.TLCOpts{Dir: "file", Module: "MC_SeqScan", Cfg: cfg, Workers: ctx.Pick(6, 12),
-			Constants: "all 10 object kinds, both tails, all damages; see " + cfg, Timeout: ctx.Dur(5, 25)})
+			Constants: "object kinds, both tails, all damages; see " + cfg, Timeout: ctx.Dur(5, 25)})
+		if mcErr == nil {
+			_, mcErr = ctx.MustHold(core.TLCOpts{Dir: "file", Module: "MC_SeqScan", Cfg: "MC_SeqScan_length.cfg", Workers: 4,
+				Constants: "1..4 objects of int / stream with indirect length / the same with an endstream line in the body", Timeout: ctx.Dur(5, 10)})
+		}
 	}()
 
 	cases, rules, err := loadTable(ctx)
